@@ -536,6 +536,26 @@ class Arm(Machine):
                 R[self.reg(o[0])] = self.load(self.memaddr(",".join(o[1:]), here), 4)
         elif mn == "str":
             self.store(self.memaddr(",".join(o[1:]), here), 4, R[self.reg(o[0])])
+        elif mn in ("ldmia", "ldm", "stmia", "stm", "ldmfd", "stmea"):
+            base = o[0].strip()
+            wb = base.endswith("!")
+            b = self.reg(base.rstrip("!"))
+            regs = self.reglist(",".join(o[1:]))
+            addr = R[b]
+            tgt = None
+            for k, i in enumerate(regs):
+                if mn.startswith("ld"):
+                    v = self.load((addr + 4 * k) & 0xFFFFFFFF, 4)
+                    if i == 15:
+                        tgt = v
+                    else:
+                        R[i] = v
+                else:
+                    self.store((addr + 4 * k) & 0xFFFFFFFF, 4, R[i])
+            if wb and not (mn.startswith("ld") and b in regs):
+                R[b] = (addr + 4 * len(regs)) & 0xFFFFFFFF
+            if tgt is not None:
+                return self.jump_addr(tgt)
         elif mn == "push":
             regs = self.reglist(",".join(o))
             R[13] = (R[13] - 4 * len(regs)) & 0xFFFFFFFF
@@ -770,6 +790,26 @@ class M68k(Machine):
         if mn in ("move.l", "movea.l"):
             v = self.rd(self.ea(o[0]))
             self.wr(self.ea(o[1]), v)
+        elif mn in ("move.b", "move.w"):
+            # sub-word moves: memory operands are big-endian (the most significant byte of a long is at the lowest address);
+            # a data register destination keeps its upper bits, an address register is not a valid byte operand
+            size = 1 if mn == "move.b" else 2
+            mask = (1 << (8 * size)) - 1
+            src, dst = self.ea(o[0]), self.ea(o[1])
+            if src[0] == "m":
+                v = self.load(src[1], size)
+            elif src[0] == "r" and src[1] == "d":
+                v = self.d[src[2]] & mask
+            elif src[0] == "i":
+                v = src[1] & mask
+            else:
+                raise EmuError("%s from an address register" % mn)
+            if dst[0] == "m":
+                self.store(dst[1], size, v)
+            elif dst[0] == "r" and dst[1] == "d":
+                self.d[dst[2]] = (self.d[dst[2]] & ~mask & 0xFFFFFFFF) | v
+            else:
+                raise EmuError("%s to an address register" % mn)
         elif mn == "moveq.l" or mn == "moveq":
             v = self.imm(o[0])
             if not -128 <= v <= 127:
